@@ -47,7 +47,7 @@ func zzC05Parse(src string) *zzSrc {
 			inMacro = ""
 			continue
 		case f[0] == "%section":
-			inSection = true
+			inSection = len(f) > 2 && f[2] == ".romtext" // data sections hold no instructions
 			continue
 		case f[0] == "%endsection":
 			inSection = false
